@@ -463,13 +463,13 @@ tb_done:
 		return KSI_CTX_setPKITruststore(c, pki); }
 	if (!strcmp(c0, "constraints")) { /* constraints <c> [oid=value ...] */
 		KSI_CertConstraint arr[16]; int i, n = 0; char *eq;
-		for (i = 2; i < ntok && n < 15; i++) { eq = strchr(tok[i], '='); if (!eq) continue; *eq = 0; arr[n].oid = tok[i]; arr[n].val = eq + 1; n++; }
+		for (i = 2; i < ntok && n < 15; i++) { eq = strchr(tok[i], '='); if (!eq) { arr[n].oid = tok[i]; arr[n].val = NULL; n++; continue; } /* an entry without a value: the setter has to refuse the array */ *eq = 0; arr[n].oid = tok[i]; arr[n].val = eq + 1; n++; }
 		arr[n].oid = NULL; arr[n].val = NULL;
 		return KSI_CTX_setDefaultPubFileCertConstraints(ctxs[atoi(tok[1])], arr); }
 	if (!strcmp(c0, "pubfileconstraints")) { /* pubfileconstraints <p> clear | <oid=value ...>: file specific constraints; clear = KSI_PublicationsFile_setCertConstraints(pf, NULL) */
 		KSI_CertConstraint arr[16]; int i, n = 0; char *eq; KSI_PublicationsFile *p = pubfiles[atoi(tok[1])]; KSI_CertConstraint *got = NULL; int rc;
 		if (ntok > 2 && !strcmp(tok[2], "clear")) rc = KSI_PublicationsFile_setCertConstraints(p, NULL);
-		else { for (i = 2; i < ntok && n < 15; i++) { eq = strchr(tok[i], '='); if (!eq) continue; *eq = 0; arr[n].oid = tok[i]; arr[n].val = eq + 1; n++; }
+		else { for (i = 2; i < ntok && n < 15; i++) { eq = strchr(tok[i], '='); if (!eq) { arr[n].oid = tok[i]; arr[n].val = NULL; n++; continue; } /* an entry without a value: the setter has to refuse the array */ *eq = 0; arr[n].oid = tok[i]; arr[n].val = eq + 1; n++; }
 			arr[n].oid = NULL; arr[n].val = NULL; rc = KSI_PublicationsFile_setCertConstraints(p, arr); }
 		if (KSI_PublicationsFile_getCertConstraints(p, &got) == KSI_OK) { n = 0; if (got) while (got[n].oid) n++; kx_out(" nfile=%d", got ? n : -1); }
 		return rc; }
